@@ -138,7 +138,9 @@ def jobs_for(prop: str, root: str) -> list[dict]:
     if os.path.isdir(bd):
         for name in sorted(os.listdir(bd)):
             p = os.path.join(bd, name, "patch.diff")
-            if name.startswith(prop + "-b") and os.path.exists(p):
+            # every refactoring is replayed against EVERY property's check: a refactoring aimed at one property often touches code
+            # another property's rules are anchored in (C33-b1 tripped C11, C12-b2 tripped C14, C05-b2 tripped C32)
+            if os.path.exists(p):
                 out.append({"prop": prop, "root": root, "kind": "patch", "name": f"benign/{name} (refactoring written by a fresh sub-agent)", "patch": p, "expect": None})
     sd = os.path.join(VERIF_DIR, "seeded")
     for sid, rule in sorted(table.SEEDS.get(prop, {}).items()):
